@@ -23,7 +23,8 @@ def run(c):
               "each with a small unique sketch sharing values) and evaluates 4 merge programs on the real code (given order, permutations, "
               "random binary trees) through MultiValue.Merge (stream `values`: quick 400, thorough 8000); stream `ts` does the same for API "
               "rows with tsValues.merge (100 / 2000) under a random subset of selected columns (unselected columns are zero in every row; a third of the cases select all); stream `sketch` (4 / 80 cases) builds 2-3 sketches of 1..280000 values (sizes around 2^16 included) and merges them with ChUnique.Merge and "
-              "MergeRead in several orders. A third of the leaves also take a MultiValue.ApplyUnique event. After every sketch op the real table is compared slot by slot with the table model "
+              "MergeRead in several orders; stream `wrap` (150 / 3000 cases) loads crafted well-formed images into 16-slot tables whose collision chains wrap past the last slot, thins them "
+              "through a contribution with a higher skipDegree (Merge and MergeRead) and merges surviving hashes again in 5 groupings. A third of the leaves also take a MultiValue.ApplyUnique event. After every sketch op the real table is compared slot by slot with the table model "
               "and every stored value is looked up with the real insertImpl probe (oracle unique-item-unreachable / unique-count-mismatch). Non-trivial = a merge consumed a random draw / two leaves tie for the minimum / API rows / "
               "sketch operands with different skipDegree; distinct by op-sequence hash")
     c.assumptions += [
@@ -38,7 +39,7 @@ def run(c):
     drv = c.driver(DRIVER)
     if binary and drv:
         # three streams (the label is the harness -mode, so that `bin/check C04 --replay f` regenerates the same case)
-        for mode, n in (("values", c.n(400, 8000)), ("ts", c.n(100, 2000)), ("sketch", c.n(4, 80))):
+        for mode, n in (("values", c.n(400, 8000)), ("ts", c.n(100, 2000)), ("sketch", c.n(4, 80)), ("wrap", c.n(150, 3000))):
             rc, out = c.go_run(binary, [f"-n={n}", f"-mode={mode}"], timeout=3000)
             c.harness_ok(rc, out, f"verif-c04 -mode={mode}")
             c.correspond(out, drv, label=mode, timeout=3000)
@@ -47,7 +48,7 @@ def run(c):
         if not binary:
             return
         for k in range(1, 6):
-            for mode, n in (("sketch", 30), ("values", c.n(2000, 8000)), ("ts", c.n(500, 2000))):
+            for mode, n in (("sketch", 30), ("wrap", 3000), ("values", c.n(2000, 8000)), ("ts", c.n(500, 2000))):
                 rc, out = c.go_run(binary, [f"-n={n}", f"-mode={mode}", f"-seed={c.seed + 1000 * k}"], timeout=3000)
                 c.collect(out, label=mode)
             if c.oracle:
@@ -76,7 +77,7 @@ META = {
              "Hypotheses of the table theorems, all maintained by the code and derived inside the program theorem: one free slot for rehash/resize (itemsCount <= maxFill = half the "
              "table before every insert), new size >= 2x old size for resize, table size >= 4 (2 <= initial degree; the code has 4), hashes below 2^bits. table_refines is no longer "
              "partial: Merge (zero item + fold of the insertHash step over rhs.buf in slot order after the adoption rehash), MergeRead (adoption rehash, resize, fold over the wire list) "
-             "and UmMarshall are inside the single program theorem. A decide counter-example shows that with the resize loop shortened to `i < oldSize` (seeded C03-2) all value-level "
+             "and UmMarshall are inside the single program theorem. Decide counter-examples: skipping the second rehash pass when the last slot is free (seeded C04-r6-1) strands the wrapped survivor of a thinned chain; with the resize loop shortened to `i < oldSize` (seeded C03-2) all value-level "
              "theorems still hold but a wrapped value is stranded and the next insert of it is counted twice. The theorems are about the code after fixes/C04-chunique-merge.diff "
              "(/repo e786491b). Not modelled/decided: malformed wire images (duplicates, values not divisible by 2^skipDegree), IEEE rounding outside the exact domain; ApplyUnique "
              "rescaling only where the division is exact; t-digest."),
